@@ -164,7 +164,7 @@ def main():
     adv = req.get("adv")
     if adv:
         install_adv(adv)
-    out = {"adv": adv, "hashseed": os.environ.get("PYTHONHASHSEED"), "probe": list({"alpha", "beta", "gamma", "delta", "epsilon", "zeta"})}
+    out = {"python": sys.version.split()[0], "adv": adv, "hashseed": os.environ.get("PYTHONHASHSEED"), "probe": list({"alpha", "beta", "gamma", "delta", "epsilon", "zeta"})}
     if mode == "transpile":
         out["results"] = [one(s, req.get("texts", False)) for s in req["sources"]]
     elif mode == "session":
